@@ -12,6 +12,7 @@ lacks the corresponding repair.
 -/
 import Pandora.Proofs.C05Eng
 import Pandora.Proofs.C05Sys
+import Pandora.Proofs.C05Ctx
 import Pandora.Bridge.C05Engine
 
 namespace Pandora.Props.C05
@@ -472,6 +473,30 @@ its run context (whose error is `context.Canceled`) -/
 example : Gen.C05Engine.isCtxError (some .canceled) (some (.ctxKind .deadlineExceeded)) = false := by decide
 example : absRet (some .canceled) (some (.ctxKind .deadlineExceeded)) = .err 1001 := by decide
 example : absRet (some .canceled) (some (.ctxKind .canceled)) = .ctx := by decide
+
+/-- Nobody but the caller, the return of `Pool.Run` and the await loop (after EVERY started instance was awaited)
+cancels the run context. So an instance that is still running sees its context cancelled only after the caller's cancel
+or after `Pool.Run` has returned something other than success: in a run nobody cancels that ends successfully no
+instance is ever stopped by a cancelled context (every variant). -/
+theorem C05_instance_cancelled_only_after (cfg : Cfg) (cs : List Choice) (i : Nat) (x : Inst) :
+    (run cfg cs).live[i]? = some x → (run cfg cs).runC = true →
+      (run cfg cs).extC = true ∨ ∃ r, (run cfg cs).main = .returned r ∧ r ≠ .ok := by
+  intro hl hc
+  rcases live_cancelled cfg cs i x hl hc with h | ⟨r, hr⟩
+  · exact Or.inl h
+  · refine Or.inr ⟨r, hr, ?_⟩
+    intro hok
+    subst hok
+    have hd := C05_success_is_done cfg cs (by simp [State.result, hr])
+    rw [hd.noInst] at hl
+    simp at hl
+
+-- non-vacuity: the caller cancels while an instance shoots: the instance may now return the context's error
+example : (run Cfg.repaired [.warm (.ok true), .sched none, .startFirst (.ok true), .extCancel]).live[0]? = some ⟨0, some ⟨true, 0⟩⟩ ∧
+    (run Cfg.repaired [.warm (.ok true), .sched none, .startFirst (.ok true), .extCancel]).runC = true := by decide
+-- … whereas without a cancel `instRet 0 .ctx` is not enabled (the state does not change)
+example : step Cfg.repaired (run Cfg.repaired [.warm (.ok true), .sched none, .startFirst (.ok true)]) (.instRet 0 .ctx) =
+    run Cfg.repaired [.warm (.ok true), .sched none, .startFirst (.ok true)] := by decide
 
 /-! ### the goroutines of `Engine.Run` (`Model.C05.Sys`): results in flight, the 1-slot channel, leaving through the
 engine context — for ALL interleavings of any number of pools, whatever each `Pool.Run` returns and whenever -/
